@@ -137,15 +137,15 @@ package core
 //@ iface Storage.Remove
 //@   ghost-ensures ite(result1 == nil && old(str(k)) == old(owed), owed == "", owed == old(owed))
 //@   also-modifies owed
-//@   modifies allbut(F:core.Context.|F:core.IndexedState.|F:core.LinearState.|F:core.Location.|MD:string:map[string]interface{}|MV:string:map[string]interface{}|ML:string:map[string]interface{}|MD:string:core.RawFact|MV:string:core.RawFact|ML:string:core.RawFact|MD:string:*core.Rule|MV:string:*core.Rule|ML:string:*core.Rule)
+//@   modifies allbut(F:core.Context.|F:core.IndexedState.|F:core.LinearState.|F:core.Location.|MD:string:map[string]interface{}|MV:string:map[string]interface{}|ML:string:map[string]interface{}|MD:string:struct{M|MV:string:struct{M|ML:string:struct{M|MD:string:*core.Rule|MV:string:*core.Rule|ML:string:*core.Rule)
 //@ iface Storage.Add
-//@   modifies allbut(F:core.Context.|F:core.IndexedState.|F:core.LinearState.|F:core.Location.|MD:string:map[string]interface{}|MV:string:map[string]interface{}|ML:string:map[string]interface{}|MD:string:core.RawFact|MV:string:core.RawFact|ML:string:core.RawFact|MD:string:*core.Rule|MV:string:*core.Rule|ML:string:*core.Rule)
+//@   modifies allbut(F:core.Context.|F:core.IndexedState.|F:core.LinearState.|F:core.Location.|MD:string:map[string]interface{}|MV:string:map[string]interface{}|ML:string:map[string]interface{}|MD:string:struct{M|MV:string:struct{M|ML:string:struct{M|MD:string:*core.Rule|MV:string:*core.Rule|ML:string:*core.Rule)
 //@ iface Storage.Load
-//@   modifies allbut(F:core.Context.|F:core.IndexedState.|F:core.LinearState.|F:core.Location.|MD:string:map[string]interface{}|MV:string:map[string]interface{}|ML:string:map[string]interface{}|MD:string:core.RawFact|MV:string:core.RawFact|ML:string:core.RawFact|MD:string:*core.Rule|MV:string:*core.Rule|ML:string:*core.Rule)
+//@   modifies allbut(F:core.Context.|F:core.IndexedState.|F:core.LinearState.|F:core.Location.|MD:string:map[string]interface{}|MV:string:map[string]interface{}|ML:string:map[string]interface{}|MD:string:struct{M|MV:string:struct{M|ML:string:struct{M|MD:string:*core.Rule|MV:string:*core.Rule|ML:string:*core.Rule)
 //@ iface Storage.Clear
-//@   modifies allbut(F:core.Context.|F:core.IndexedState.|F:core.LinearState.|F:core.Location.|MD:string:map[string]interface{}|MV:string:map[string]interface{}|ML:string:map[string]interface{}|MD:string:core.RawFact|MV:string:core.RawFact|ML:string:core.RawFact|MD:string:*core.Rule|MV:string:*core.Rule|ML:string:*core.Rule)
+//@   modifies allbut(F:core.Context.|F:core.IndexedState.|F:core.LinearState.|F:core.Location.|MD:string:map[string]interface{}|MV:string:map[string]interface{}|ML:string:map[string]interface{}|MD:string:struct{M|MV:string:struct{M|ML:string:struct{M|MD:string:*core.Rule|MV:string:*core.Rule|ML:string:*core.Rule)
 //@ iface Storage.Delete
-//@   modifies allbut(F:core.Context.|F:core.IndexedState.|F:core.LinearState.|F:core.Location.|MD:string:map[string]interface{}|MV:string:map[string]interface{}|ML:string:map[string]interface{}|MD:string:core.RawFact|MV:string:core.RawFact|ML:string:core.RawFact|MD:string:*core.Rule|MV:string:*core.Rule|ML:string:*core.Rule)
+//@   modifies allbut(F:core.Context.|F:core.IndexedState.|F:core.LinearState.|F:core.Location.|MD:string:map[string]interface{}|MV:string:map[string]interface{}|ML:string:map[string]interface{}|MD:string:struct{M|MV:string:struct{M|ML:string:struct{M|MD:string:*core.Rule|MV:string:*core.Rule|ML:string:*core.Rule)
 //@ func (*IndexedState).Load
 //@   assume-entry owed == ""
 //@   loop 1: invariant[C07.ix_load_purges_expired] owed == ""
@@ -177,6 +177,7 @@ package core
 //@ func (*ComboBreaker).Do
 //@   ensures[C20.combo_runs_at_most_once] calls(f) <= old(calls(f)) + 1
 //@   ensures[C20.combo_not_attempted_no_run] !result0 ==> calls(f) == old(calls(f))
+//@   loop 1: invariant[C20.combo_polling_runs_nothing] calls(f) == old(calls(f))
 
 //@ func (*SimpleBreaker).Do
 //@   ensures[C20.simple_runs_at_most_once] calls(f) <= old(calls(f)) + 1
@@ -816,17 +817,29 @@ package core
 //@ func (*LinearState).get
 //@   ensures[C02.lin_get_returns_the_stored_fact] result1 == nil ==> old(has(s.Facts, id)) && result0 == old(s.Facts[id]).M
 
-// A rejected add leaves the term index as it was (so a fact that stays stored stays findable).
+// A rejected add leaves the term index as it was (so a fact that stays stored stays findable): it makes no update of the
+// term index at all (updates are counted by a ghost; the trie's id sets and the term index's id sets share a heap component,
+// so "unchanged" cannot be stated component-wise across the un-indexing of the rule).
+//@ ghost tiWrites int
+//@ func (*TermIndex).Add
+//@   ghost-ensures tiWrites > old(tiWrites)
+//@   also-modifies tiWrites
+//@ func (*TermIndex).Rem
+//@   ghost-ensures tiWrites > old(tiWrites)
+//@   also-modifies tiWrites
+//@ func (*TermIndex).RemIdTerms
+//@   ghost-ensures tiWrites > old(tiWrites)
+//@   also-modifies tiWrites
 //@ funcval (*IndexedState).add.addHook
 //@   modifies allbut(F:core.Context.|F:core.IndexedState.|F:core.TermIndex.|MD:string:map[string]struct{}|MV:string:map[string]struct{}|ML:string:map[string]struct{}|MD:string:struct{}|MV:string:struct{}|ML:string:struct{}|LK:|MD:string:map[string]interface{}|MV:string:map[string]interface{}|ML:string:map[string]interface{}|MD:string:interface{}|MV:string:interface{}|ML:string:interface{})
 //@ func (*IndexedState).add
-//@   ensures[C02.ix_rejected_add_keeps_index] result1 != nil ==> forall(t, string, forall(j, string, old(hasEntry(s.FactIndex, t, j)) ==> hasEntry(s.FactIndex, t, j)))
+//@   ensures[C02.ix_rejected_add_keeps_index] result1 != nil ==> tiWrites == old(tiWrites)
 //@ ghost addRejected bool gate
 //@ func (*IndexedState).add
 //@   ghost-ensures addRejected == (result1 != nil)
 //@   also-modifies addRejected
 //@ func (*IndexedState).Add
-//@   ensures[C02.ix_rejected_Add_keeps_index] addRejected ==> forall(t, string, forall(j, string, old(hasEntry(s.FactIndex, t, j)) ==> hasEntry(s.FactIndex, t, j)))
+//@   ensures[C02.ix_rejected_Add_keeps_index] addRejected ==> tiWrites == old(tiWrites)
 
 // ---- C01: rule index and rule cache coherence, dispatch --------------------------------------
 // The trie (PatternIndex) is opaque: its Add/Rem/Search are observed through ghost records only.
